@@ -310,6 +310,27 @@ FULL = {"scc": "strongly_connected_components", "topo": "topological_sort", "con
         "scc_edges": "strongly_connected_components_edges", "topo_edges": "topological_sort_edges"}
 
 
+# A change that makes one of the functions run for ever must end in a verdict, not in a hung check: every call gets a CPU-time
+# budget (ITIMER_VIRTUAL: independent of machine load; milliseconds are normal), a function that exceeded it once is not called
+# again in this worker (its violation 'ensures:returns' is already recorded).
+_DEAD: set = set()
+
+
+class _Skip(Exception):
+    pass
+
+
+def call_guarded(fn, f, n, *args, **kw):
+    if fn in _DEAD:
+        raise _Skip()
+    try:
+        with R3.cpu_guard(5 + n // 1000):
+            return f(*args, **kw)
+    except R3.CpuBudget:
+        _DEAD.add(fn)
+        raise
+
+
 def run_callback(case, g, fns=("scc", "topo", "condense")):
     """[(fn, obligation suffix, detail)] for the callback API functions on one case."""
     from solvor.scc import condense, strongly_connected_components, topological_sort
@@ -318,7 +339,9 @@ def run_callback(case, g, fns=("scc", "topo", "condense")):
     out = []
     for fn in fns:
         try:
-            res = F[fn](nodes(), nb)
+            res = call_guarded(fn, F[fn], g.n, nodes(), nb)
+        except _Skip:
+            continue
         except Exception as e:  # noqa: BLE001
             o, d = exc_obl(e, g)
             out.append((fn, o, d))
@@ -335,7 +358,9 @@ def run_edges(case, g, fns=("scc_edges", "topo_edges")):
     out = []
     for fn in fns:
         try:
-            res = F[fn](case["n"], edges, backend="python")
+            res = call_guarded(fn, F[fn], case["n"], case["n"], edges, backend="python")
+        except _Skip:
+            continue
         except Exception as e:  # noqa: BLE001
             out.append((fn, "ensures:returns", f"raised {type(e).__name__}: {e}"))
             continue
